@@ -6,7 +6,7 @@
 // LoadVersionForOverwriting (plus rejected calls). The same history is executed
 // by several "twins" that differ only in things that must not matter: node-cache
 // size, reopen pattern (never / after every save / random, memdb or an on-disk
-// goleveldb that is closed too), fast-storage on/off/toggled, whether old
+// goleveldb that is closed too), fast storage on or off (fixed per DB), whether old
 // versions are pruned at all, whether WorkingHash is read in between, and the
 // production Store wrapper. After every step every read API and ordered
 // iteration of the working tree and of every retained version is compared with
@@ -20,9 +20,7 @@ import (
 	"bytes"
 	"fmt"
 	"math/rand/v2"
-	"os"
 	"runtime"
-	"runtime/pprof"
 	"time"
 
 	"verifharness/internal/vf"
@@ -34,7 +32,7 @@ func init() {
 		Level: "exploration",
 		Rule: "cases = (logical history, twin configuration, step); histories are seeded op sequences (set new/update/same-value, remove present/absent, save incl. no-change and empty-tree saves, " +
 			"rollback, DeleteVersionsTo, LoadVersionForOverwriting, rejected Set(nil)/DeleteVersionsTo(latest), ordered insert bursts, clear-all) over small byte-string universes with prefix-related keys " +
-			"(and wider random universes for taller trees), initial version 1 or >1; each history runs on 3-5 twins (cache 0..10000, reopen never/after-save/random, fast storage on/off/toggled, " +
+			"(and wider random universes for taller trees), initial version 1 or >1; each history runs on 3-5 twins (cache 0..10000, reopen never/after-save/random, fast storage on or off (fixed per DB), " +
 			"pruning vs archive, memdb vs goleveldb, Store wrapper); an evaluation is one executed step followed by the comparison of the working tree and all retained versions with the model; " +
 			"non-trivial = the step changed the tree or the version set (everything except rejected calls and WorkingHash reads) while at least 2 versions were retained or the tree had >= 8 keys; " +
 			"distinct by (history id, twin, step, op)",
@@ -81,7 +79,7 @@ func twinsFor(r *rand.Rand, p profile, quick bool) []cfg {
 	out := []cfg{base, prod, arch}
 	switch r.IntN(4) {
 	case 0:
-		out = append(out, cfg{name: "toggle", cache: 50, skipFast: r.IntN(2) == 0, toggleFast: true, reopen: "random", whash: true, lightEvery: light})
+		out = append(out, cfg{name: "fast-random", cache: 50, skipFast: false, reopen: "random", whash: true, lightEvery: light})
 	case 1:
 		out = append(out, cfg{name: "fast-reopen", cache: 3, skipFast: false, reopen: "aftersave", whash: true, lightEvery: light})
 	case 2:
@@ -102,15 +100,7 @@ func nontrivial(o op, m *model) bool {
 }
 
 func run(c *vf.Ctx) {
-	if pf := os.Getenv("C30_PROF"); pf != "" {
-		f, _ := os.Create(pf)
-		pprof.StartCPUProfile(f)
-		defer pprof.StopCPUProfile()
-	}
-	nh := c.N(100, 1500)
-	if v := os.Getenv("C30_NH"); v != "" {
-		fmt.Sscan(v, &nh)
-	}
+	nh := c.N(80, 1200)
 	c.Set("histories", nh)
 	workers := runtime.NumCPU()
 	c.Parallel(nh, workers, 5000, func(i int, r *rand.Rand) {
@@ -119,7 +109,7 @@ func run(c *vf.Ctx) {
 		}
 		t0 := time.Now()
 		defer func() {
-			if d := time.Since(t0); d > 3*time.Second {
+			if d := time.Since(t0); d > 20*time.Second {
 				c.Logf("history %d took %.1fs", i, d.Seconds())
 			}
 		}()
@@ -141,21 +131,8 @@ func run(c *vf.Ctx) {
 			tw.run()
 			c.Count("twin-runs:"+cf.name, 1)
 			if tw.fail != nil {
-				key, w := tw.fail.key, tw.witness()
-				if tw.staleFastRisk && !tw.skip {
-					// specific signature of a diagnosed defect (see twin.staleFastRisk); the symptom key is kept in the witness
-					w["symptom_key"] = key
-					key = "fast-index-stale-after-skipfast-overwrite"
-				}
-				c.Violation(key, w, "[%s %s step %d %q] %s", hid, cf.name, tw.step, ops[min(tw.step, len(ops)-1)].String(), tw.fail.msg)
-				if key != tw.fail.key {
-					continue // the other twins of this history are unaffected
-				}
+				c.Violation(tw.fail.key, tw.witness(), "[%s %s step %d %q] %s", hid, cf.name, tw.step, ops[min(tw.step, len(ops)-1)].String(), tw.fail.msg)
 				return
-			}
-			if tw.aborted {
-				c.Count("twin-runs-aborted-on-known-signature", 1)
-				continue
 			}
 			results = append(results, result{cf.name, tw.saves})
 			// distinct cases of this twin (recomputed on a scratch model)
@@ -176,12 +153,7 @@ func run(c *vf.Ctx) {
 				c.Violation(st.fail.key, st.witness(), "[%s store step %d] %s", hid, st.step, st.fail.msg)
 				return
 			}
-			if !st.aborted {
-				results = append(results, result{"store", st.saves})
-			}
-		}
-		if len(results) == 0 {
-			return
+			results = append(results, result{"store", st.saves})
 		}
 		// the root hash of every saved version is the same under every reopen pattern / cache size / pruning policy
 		ref := results[0]
